@@ -48,6 +48,7 @@ CONSTANTS MaxOut,            \* output chunks E's payload writes
           MaxCrashes,        \* S-daemon crashes
           ClientOps,         \* subset of {"cancel", "release", "frelease"} a client of S may issue (each once)
           RestartIfIdKnown,  \* seeded: Restart resumes when only the remote id is on record
+          RestartSkipsComplete, \* seeded (c04-complete-remote-not-monitored-at-restart): Restart starts no monitor when the record is complete
           IdStoredLate,      \* seeded (c04-remote-id-stored-late): RemoteUnitID is written only together with RemoteStarted
           StdoutFromZero,    \* mutation: results are requested from 0 after a reconnect
           ReleaseSkipsRemote \* mutation: a release issued while the link is down skips the remote call
@@ -132,7 +133,9 @@ RestartS ==
             IF lrel \/ lcan
               THEN /\ m' = "connect" /\ mop' = (IF lrel THEN "release" ELSE "cancel")
                    /\ UNCHANGED <<st, sz, bad, sm, smfr, om>>
-              ELSE /\ sm' = "connect" /\ smfr' = FALSE /\ om' = "check" /\ UNCHANGED <<st, sz, bad, m, mop>>
+              ELSE IF RestartSkipsComplete /\ Complete(st)
+                     THEN UNCHANGED <<st, sz, bad, m, mop, sm, smfr, om>>
+                     ELSE /\ sm' = "connect" /\ smfr' = FALSE /\ om' = "check" /\ UNCHANGED <<st, sz, bad, m, mop>>
      ELSE IF RestartIfIdKnown /\ rid # 0
             THEN m' = "connect" /\ mop' = "submit" /\ UNCHANGED <<st, sz, bad, sm, smfr, om>>
             ELSE SetSt("F", sz) /\ UNCHANGED <<m, mop, sm, smfr, om>>     \* "remote work had not previously started"
@@ -309,6 +312,10 @@ LocalOutputIsPrefix == ~dup /\ (known => lout <= eout)
 SubmittedOnce  == ecount <= 1
 \* C04: once E holds the complete stdin (its unit will run), S's record names that unit - whatever happens to S afterwards
 BoundOnceShipped == stdinDone => rid = ecount
+\* C04/C05: whenever S runs and the local output is shorter than the recorded size of a unit E still has, the stdout monitor is
+\* at work - in particular after a restart that finds "status final, output short" (the status was mirrored, the copy was not done)
+MirrorNeverAbandoned ==
+  (up /\ known /\ started /\ ~lcan /\ ~lrel /\ m = "idle" /\ lout < sz /\ est \notin {"none", "gone"} /\ ~gaveUp) => om # "off"
 \* C04: after a restart a unit whose submission had not completed is Failed, not Pending
 NeverStartedIsFailed == (up /\ crashes > 0 /\ known /\ ~started /\ m = "idle") => st = "F"
 \* C04/C13: a cancel accepted at S is on disk (LocalCancelled) before anything else happens, so a restart re-issues it
